@@ -14,10 +14,15 @@
     (`reachable_valid`), hence `min ≤ size ≤ max` and `used ≤ size` (`size_bounds`);
   * facts about the specification that say what "FIFO with exact drop accounting" means:
     conservation of bytes, suffix property, no-drop mode loses nothing, all-or-nothing lines.
-  NOT modelled: the replay/rewind/copy/move entry points (not in the property's operation list),
-  `cbuf_read_to_fd`/`cbuf_peek_to_fd` with short writes (exercised by the correspondence only).
+  * beyond the property's own operation list, the rest of the public API of cbuf.c: replay / rewind
+    (a history of consumed bytes next to the FIFO), peek_to_fd / read_to_fd / replay_to_fd on a
+    descriptor that takes only some bytes, and copy / move between two buffers — every history over
+    all of these on one buffer (`history_refines_replay_fifo`) and on a pair of buffers
+    (`pair_history_refines_fifo`) is accepted by the specification with identical answers;
+  * the counters agree with the contents in every reachable state (`counters_agree`).
+  NOT modelled: replay_line / rewind_line / lines_reused, the per-buffer mutex, cbuf_destroy.
 -/
-import PdshVerif.Cbuf.Ops
+import PdshVerif.Cbuf.PairRefine
 
 namespace PdshVerif.C13
 open PdshVerif.Cbuf
@@ -184,6 +189,109 @@ theorem spec_readLine_whole (f : Spec.Fifo) (len lines : Int) (hl : lines ≥ -1
     have hpos : (n : Int) > 0 := by omega
     simp only [hpos, if_true, Int.toNat_natCast]
     exact ⟨trivial, trivial, hle, hnl (by omega)⟩
+
+/-! ### the whole public API: replay side, descriptor sinks, two buffers -/
+
+/-- any history over the full single-buffer API (base operations, replay, rewind, peek/read/replay
+    to a descriptor that takes `cap` bytes) on a freshly created buffer behaves like the FIFO with
+    a history of consumed bytes -/
+theorem history_refines_replay_fifo (mn mx : Int) (sm : Nat) (hsm : 0 < sm) (c : Cbuf)
+    (hc : create mn mx sm = some c) (ops : List OpR) :
+    acceptSR (absR c) (traceMR c ops) = some (absR (runMR c ops).2) ∧
+    isValid (runMR c ops).2 = true := by
+  have h := runR_refines (inv_create hsm hc).1 ops
+  exact ⟨h.1, isValid_of_inv h.2⟩
+
+/-- a fresh buffer has nothing to replay -/
+theorem create_refines_replay (mn mx : Int) (sm : Nat) (hsm : 0 < sm) (c : Cbuf) (hc : create mn mx sm = some c) :
+    Spec.create mn mx = some (absR c).f ∧ (absR c).hist = [] := by
+  refine ⟨create_refines mn mx sm c hc, ?_⟩
+  have hi := (inv_create hsm hc).1
+  unfold create at hc
+  split at hc
+  · simp at hc
+  · simp only [Option.some.injEq] at hc
+    subst hc
+    simp [absR, hist, reused, circRead]
+
+/-- any history over two freshly created buffers, including cbuf_copy and cbuf_move in both
+    directions, is accepted by the pair of specifications with identical answers -/
+theorem pair_history_refines_fifo (mn1 mx1 mn2 mx2 : Int) (sm : Nat) (hsm : 0 < sm) (a b : Cbuf)
+    (ha : create mn1 mx1 sm = some a) (hb : create mn2 mx2 sm = some b) (ops : List Op2) :
+    acceptS2 (absR2 (a, b)) (traceM2 (a, b) ops) = some (absR2 (runM2 (a, b) ops).2) ∧
+    isValid (runM2 (a, b) ops).2.1 = true ∧ isValid (runM2 (a, b) ops).2.2 = true := by
+  have h := run2_refines (s := (a, b)) ⟨(inv_create hsm ha).1, (inv_create hsm hb).1⟩ ops
+  exact ⟨h.1, isValid_of_inv h.2.1, isValid_of_inv h.2.2⟩
+
+/-- the byte / line / replay counters agree with the contents in every reachable state -/
+theorem counters_agree (mn mx : Int) (sm : Nat) (hsm : 0 < sm) (c : Cbuf)
+    (hc : create mn mx sm = some c) (ops : List OpR) :
+    let c' := (runMR c ops).2
+    c'.used = (absR c').f.q.length ∧ c'.size - c'.used = (absR c').f.size - (absR c').f.q.length ∧
+    linesUsed c' = Spec.countNl (absR c').f.q ∧ reused c' = (absR c').hist.length ∧
+    (c'.used = 0 ↔ (absR c').f.q = []) ∧ reused c' + c'.used ≤ c'.size := by
+  have hi := (runR_refines (inv_create hsm hc).1 ops).2
+  generalize (runMR c ops).2 = c' at hi
+  simp only [absR_f, absR_hist, abs_q, abs_size, contents_length, hist_length]
+  refine ⟨trivial, trivial, linesUsed_refines hi, trivial, ?_, (reused_facts hi).1⟩
+  constructor
+  · intro h; exact List.eq_nil_of_length_eq_zero (by rw [contents_length]; exact h)
+  · intro h; have := contents_length c'; rw [h] at this; exact this.symm
+
+/-! what the replay side of the specification means -/
+
+/-- rewinding what was just consumed restores the queue and the history -/
+theorem spec_rewind_undoes_consume (r : Spec.RFifo) (n : Nat) (hn : n ≤ r.f.q.length) :
+    let r' : Spec.RFifo := { f := { r.f with q := r.f.q.drop n }, hist := r.hist ++ r.f.q.take n }
+    (Spec.rewind r' n).1 = n ∧ (Spec.rewind r' n).2 = r := by
+  simp only [Spec.rewind]
+  have h1 : ¬ ((n : Int) < -1) := by omega
+  have hlen : (r.hist ++ r.f.q.take n).length = r.hist.length + n := by simp; omega
+  simp only [h1, if_false, Int.toNat_natCast, hlen]
+  by_cases hm : (n : Int) = -1
+  · omega
+  · simp only [hm, if_false]
+    have e : min n (r.hist.length + n) = n := by omega
+    rw [e]
+    refine ⟨rfl, ?_⟩
+    have e2 : r.hist.length + n - n = r.hist.length := by omega
+    simp only [Spec.lastN, hlen, e2, List.drop_left, List.take_left, List.take_append_drop]
+
+/-- replay hands out a suffix of the history and changes nothing -/
+theorem spec_replay_suffix (r : Spec.RFifo) (len : Int) (h : 0 ≤ len) :
+    ∃ k, (Spec.replay r len).2 = r.hist.drop k ∧ (Spec.replay r len).1 = ((Spec.replay r len).2.length : Int) ∧
+      (Spec.replay r len).2.length = min len.toNat r.hist.length := by
+  have : ¬ len < 0 := by omega
+  simp only [Spec.replay, this, if_false, Spec.lastN]
+  exact ⟨_, rfl, trivial, by simp; omega⟩
+
+/-- a descriptor that takes only `cap` bytes receives a prefix of what was asked for; the call
+    reports its length, or -1 when something was to be sent and nothing could be -/
+theorem spec_sink_prefix (want : List UInt8) (cap : Nat) :
+    (Spec.sinkRet want cap).2 = want.take (min cap want.length) ∧
+    ((Spec.sinkRet want cap).1 = ((Spec.sinkRet want cap).2.length : Int) ∨
+     ((Spec.sinkRet want cap).1 = -1 ∧ want ≠ [] ∧ cap = 0)) := by
+  unfold Spec.sinkRet
+  by_cases h0 : want.length = 0
+  · have : want = [] := List.eq_nil_of_length_eq_zero h0
+    subst this; simp
+  · simp only [h0, if_false]
+    by_cases hc : cap = 0
+    · subst hc
+      refine ⟨by simp, Or.inr ⟨by simp, ?_, rfl⟩⟩
+      intro h; subst h; simp at h0
+    · simp only [hc, if_false]
+      exact ⟨(take_min_length want cap).symm, Or.inl trivial⟩
+
+/-- non-vacuity of the extended theorems: replay after a read, rewind, a short descriptor write,
+    then copy and move between two buffers -/
+example :
+    (do let a ← create 2 6 1
+        let b ← create 3 3 1
+        acceptS2 (absR2 (a, b)) (traceM2 (a, b)
+          [.on false (.base (.write [97, 10, 98, 99])), .on false (.base (.read 3)), .on false (.replay 2),
+           .on false (.rewind 1), .on false (.readToFd (-1) 1), .copy false (-1), .move false 1,
+           .on true (.base (.read 9)), .on true (.replayToFd (-1) 2)])).isSome = true := by decide
 
 /-- non-vacuity: a concrete history with growth, wrap-around and a line read is accepted -/
 example :
